@@ -10,10 +10,14 @@ package c10
 import (
 	"bytes"
 	"context"
+	"encoding/xml"
 	"fmt"
 	"runtime"
 	"sync"
 	"testing"
+	"time"
+
+	"mellium.im/xmlstream"
 
 	"mellium.im/xmpp"
 	"mellium.im/xmpp/stanza"
@@ -84,6 +88,87 @@ func TestC10CloseAtServeEnd(t *testing.T) {
 		}
 		if after := sv.Conn.Output(); !bytes.Equal(after, out) {
 			ev.Failf(t, "%s: a Send afterwards put %q on the wire after the closing tag", what, after[len(out):])
+		}
+		sv.Conn.Close()
+	}
+}
+
+// TestC10ServeEndsWithErrorOffTheReadPath: Serve ends with an error that does
+// not come out of a read — the close deadline passes while a handler is still
+// busy with an element it has consumed (the loop notices the ended context
+// between two elements), or the stream error for a failed input cannot be
+// written because an earlier transmit call hit a transport write error.
+// However Serve ends, afterwards both directions are marked closed and a
+// transmit call fails with ErrOutputStreamClosed without writing anything.
+func TestC10ServeEndsWithErrorOffTheReadPath(t *testing.T) {
+	ev.Begin(t)
+	n := ev.N(30, 300)
+	for i := 0; i < n; i++ {
+		variant := []string{"deadline-while-handler-busy", "write-error-then-input-fails"}[i%2]
+		sv, err := wire.NewServed(wire.SessionOpts{})
+		if err != nil {
+			t.Fatalf("harness: %v", err)
+		}
+		ev.Case(true, fmt.Sprintf("serve-error-off-read-path %s %d", variant, i%7), "serve-ends-with-error-off-the-read-path", variant)
+		d := time.Duration(3+i%5) * time.Millisecond
+		t0 := time.Now()
+		switch variant {
+		case "deadline-while-handler-busy":
+			busy := make(chan struct{})
+			sv.Start(xmpp.HandlerFunc(func(tr xmlstream.TokenReadEncoder, start *xml.StartElement) error {
+				select {
+				case <-busy:
+				default:
+					close(busy)
+					// still busy when the deadline passes
+					time.Sleep(time.Until(t0.Add(d + 3*time.Millisecond)))
+				}
+				return nil
+			}))
+			if err := sv.Session.SetCloseDeadline(t0.Add(d)); err != nil {
+				t.Fatalf("harness: SetCloseDeadline: %v", err)
+			}
+			sv.Feed(`<message xmlns="jabber:client" id="m1"/><message xmlns="jabber:client" id="m2"/>`)
+		default:
+			sv.Start(nil)
+			failing := true
+			sv.Conn.BeforeWrite = func(int, []byte) error {
+				if failing {
+					return wire.ErrInjected
+				}
+				return nil
+			}
+			if serr := sv.Session.Send(context.Background(), stanza.Message{Type: stanza.ChatMessage}.Wrap(nil)); serr == nil {
+				t.Fatalf("harness: the Send over a failing transport succeeded")
+			}
+			failing = i%4 < 2 // the transport may or may not have recovered
+			sv.Feed(`<!-- not allowed on a stream -->`)
+		}
+		what := fmt.Sprintf("iteration %d (%s)", i, variant)
+		if !sv.Wait(waitLong) {
+			buf := make([]byte, 1<<18)
+			buf = buf[:runtime.Stack(buf, true)]
+			ev.Failf(t, "%s: Serve had not returned after %v\n%s", what, waitLong, buf)
+		}
+		if p := sv.Panic(); p != "" {
+			ev.Failf(t, "%s: %s", what, p)
+		}
+		if sv.Err() == nil {
+			ev.Failf(t, "%s: Serve returned nil", what)
+		}
+		sv.Conn.BeforeWrite = nil
+		if st := sv.Session.State(); st&xmpp.OutputStreamClosed == 0 || st&xmpp.InputStreamClosed == 0 {
+			ev.Failf(t, "%s: Serve returned %v; afterwards the session state is %v: both directions must be marked closed", what, sv.Err(), st)
+		}
+		before := sv.Conn.OutputLen()
+		serr := sv.Session.Send(context.Background(), stanza.Message{Type: stanza.ChatMessage}.Wrap(nil))
+		if serr != xmpp.ErrOutputStreamClosed || sv.Conn.OutputLen() != before {
+			ev.Failf(t, "%s: Serve returned %v; a Send afterwards returned %v and wrote %d bytes, want %v and nothing written", what, sv.Err(), serr, sv.Conn.OutputLen()-before, xmpp.ErrOutputStreamClosed)
+		}
+		if variant == "deadline-while-handler-busy" {
+			if c := bytes.Count(sv.Conn.Output(), []byte("</stream:stream>")); c != 1 {
+				ev.Failf(t, "%s: %d closing tags on the wire after Serve returned %v, want exactly one\noutput: %q", what, c, sv.Err(), sv.Conn.Output())
+			}
 		}
 		sv.Conn.Close()
 	}
